@@ -101,6 +101,24 @@ fn cp_case<G: HG + group::GroupEncoding, const N: usize>(ctx: &mut Ctx, idx: usi
     let _ = cp_verify_check::<G, N>(ctx, &pp, &h, &gs, &sim, &cc, Some(true), "simulated-own-challenge");
     let c2 = perturb(&mut ctx.prng, &cc);
     let _ = cp_verify_check::<G, N>(ctx, &pp, &h, &gs, &sim, &c2, Some(sim_c == Scalar::zero()), "simulated-other-challenge");
+    // valid transcripts whose two group elements are related: T = k*C with responses (c + k) * opening, for k = 1
+    // (T equals C: the prover used its witness as commitment scalars), -1, 2 and 0 (T the identity) - the Schnorr
+    // relation holds exactly, so they must be accepted; and after changing one response they must be rejected
+    {
+        let bf = edge_scalar(&mut ctx.prng);
+        let mut cd = h * bf;
+        for (g, m) in gs.iter().zip(ms.iter()) { cd += g * m; }
+        for k in [Scalar::one(), -Scalar::one(), Scalar::from(2u64), Scalar::zero()] {
+            let cc = nonzero(&mut ctx.prng);
+            let f = cc + k;
+            let rel = CpD { c: cd, t: k * cd, zbf: f * bf, zs: ms.iter().map(|m| f * m).collect() };
+            ctx.count("related-elements:T=kC");
+            let _ = cp_verify_check::<G, N>(ctx, &pp, &h, &gs, &rel, &cc, Some(true), "valid-with-T-a-multiple-of-C");
+            let mut bad = rel.clone();
+            bad.zbf += Scalar::one();
+            let _ = cp_verify_check::<G, N>(ctx, &pp, &h, &gs, &bad, &cc, Some(false), "T-a-multiple-of-C-response-altered");
+        }
+    }
 }
 
 fn sp_case<const N: usize>(ctx: &mut Ctx, idx: usize) {
@@ -125,6 +143,15 @@ fn sp_case<const N: usize>(ctx: &mut Ctx, idx: usize) {
         None => return,
     };
     let _ = sp_verify_check::<N>(ctx, kp.public_key(), &kpd.pk, &pd, &c, Some(true), "honest");
+    // the same shown signature with a Schnorr part whose T is a multiple of C (responses (c + k) * opening): still valid
+    for k in [Scalar::one(), -Scalar::one()] {
+        let f = c + k;
+        let mut rel = pd.clone();
+        rel.cp.t = k * pd.cp.c;
+        rel.cp.zbf = f * _w.bf;
+        rel.cp.zs = ms.iter().map(|m| f * m).collect();
+        let _ = sp_verify_check::<N>(ctx, kp.public_key(), &kpd.pk, &rel, &c, Some(true), "valid-with-T-a-multiple-of-C");
+    }
     crate::codec::bad_point_decode_probe::<zkchannels_crypto::proofs::SignatureProof<N>>(ctx, "signature-proof", &crate::codec::sp(N), &wire::ser(&_proof));
     for (label, q, cc) in tamperings(ctx, &pd.cp, &c) {
         let kind = label.split('#').next().unwrap().trim_end_matches(char::is_numeric).to_string();
